@@ -5,9 +5,12 @@ pub mod c01;
 pub mod c02;
 pub mod c03;
 pub mod c17;
+pub mod c18;
+pub mod c19;
+pub mod c20;
 
 pub fn all() -> Vec<Prop> {
-    vec![c01::prop(), c02::prop(), c03::prop(), c17::prop()]
+    vec![c01::prop(), c02::prop(), c03::prop(), c17::prop(), c18::prop(), c19::prop(), c20::prop()]
 }
 
 /// Auxiliary child entry points used by custom stages (`verif aux --prop ID ...`).
